@@ -3,6 +3,7 @@
 # A VIOLATION (exit 1) on such a patch is a false alarm; exit 2 (no verdict) is tolerated but listed.
 ID=$1; shift
 for P in "$@"; do
+  case "$P" in /*) ;; *) P="$(pwd)/$P" ;; esac
   [ -s "$P" ] || { echo "$P: empty"; continue; }
   git -C /repo apply "$P" 2>/dev/null || { echo "$P: does not apply"; continue; }
   VERIF_OUT=$(mktemp -d) /verif/check $ID --tier quick > /tmp/benign.log 2>&1; RC=$?
